@@ -28,6 +28,7 @@ import GojaModel.C19.Replacer
 import GojaModel.C19.Tok
 import GojaModel.C19.ReviverMut
 import GojaModel.C19.Mech
+import GojaModel.C19.Utf8View
 
 namespace GojaModel.C19.Driver
 open GojaModel.Proto GojaModel.C19
@@ -63,47 +64,6 @@ partial def dumpM : List (Str × JVal) → List Char
   | [(k, v)] => hexS k ++ (':' :: dump v)
   | (k, v) :: t => hexS k ++ (':' :: dump v) ++ (',' :: dumpM t)
 end
-
-/-- raw lone surrogates of the text → U+FFFD (what a conversion of the text to UTF-8 does) -/
-partial def fixLone : Str → Str
-  | [] => []
-  | h :: t =>
-    if isHigh h then
-      match t with
-      | l :: r => if isLow l then h :: l :: fixLone r else 0xFFFD :: fixLone t
-      | [] => [0xFFFD]
-    else if isLow h then 0xFFFD :: fixLone t
-    else h :: fixLone t
-
-def surrEsc? : Str → Option (Nat × Str)
-  | 92 :: 117 :: a :: b :: c :: d :: r =>
-    match hex4Val a b c d with
-    | some u => if isHigh u || isLow u then some (u, r) else none
-    | none => none
-  | _ => none
-
-/-- `\uXXXX` escapes that denote a surrogate and are not part of an escaped high+low pair → `\ufffd`
-    (what a UTF-8 based tokenizer such as encoding/json produces).  Backslash pairs are skipped as units. -/
-partial def fixEsc : Str → Str
-  | [] => []
-  | 92 :: t =>
-    match surrEsc? (92 :: t) with
-    | some (u, r) =>
-      if isHigh u then
-        match surrEsc? r with
-        | some (l, r2) =>
-          if isLow l then (92 :: t).take 12 ++ fixEsc r2
-          else [92, 117, 102, 102, 102, 100] ++ fixEsc r
-        | none => [92, 117, 102, 102, 102, 100] ++ fixEsc r
-      else [92, 117, 102, 102, 102, 100] ++ fixEsc r
-    | none =>
-      match t with
-      | c :: r => 92 :: c :: fixEsc r
-      | [] => [92]
-  | c :: t => c :: fixEsc t
-
-/-- the text as goja's UTF-8 based tokenizer sees it (documented exception, README §JSON) -/
-def fixText (t : Str) : Str := fixEsc (fixLone t)
 
 /-- raw dump of a syntactic tree (before object building): lexemes, not bits -/
 def rawKey (o : Option JVal) : String :=
